@@ -1,6 +1,3 @@
-import os
-_DEV = {"VERIF_KNOWN": os.environ["VC08_DEV_KNOWN"]} if os.environ.get("VC08_DEV_KNOWN") else {}
-
 CHECK = dict(
     level="exploration",
     level_text="Generated-input search. rapid draws (transport in {UDP, TCP, DoT, DoH POST/GET, DoQ, DNSCrypt-UDP, DNSCrypt-TCP}) x configured UDP maximum x request EDNS settings (OPT absent / any UDP size / DO / version / padding / keep-alive / NSID / EXPIRE / cookie / ECS / local option) x handler response (0..~72 KiB, any mix of sections, with or without its own OPT, pre-set TC, pre-existing padding), with the response size steered to within a few octets of the applicable limit in 40% of the cases; each query is packed and run through the real per-transport serving function of an unstarted server into a recording connection, and the oracle (size inequality, TC/empty-answer, OPT echo, padding and keep-alive predicates) is evaluated on the bytes written. A second, bounded-exhaustive run enumerates (advertised size or none) x configured maximum over 22 edge values with responses of exactly limit-1..limit+2 octets on both UDP paths. Held on N cases is evidence, not proof.",
@@ -10,13 +7,13 @@ CHECK = dict(
         "miekg/dns Pack/Unpack are trusted to be inverse on the messages generated; sizes are measured on the bytes the server wrote, never recomputed",
         "a plain-UDP query is at most 512 octets (the production read buffer, ConfigDNS.UDPSize is never set by dnssvc); a DNSCrypt-UDP query at most ~1100",
         "the handler returns the TCP keep-alive option only to a query that carried it (conforming upstream); handler responses carry no TSIG and at most one OPT",
-        "math/rand's global source is seeded per case from a rapid draw so that the padding length is a function of the case (Go < 1.24 semantics of rand.Seed)",
+        "math/rand's global source is seeded per case from a rapid draw so that the padding length is a function of the case (rand.Seed; GODEBUG=randseednop=0 is set for newer toolchains)",
     ],
     units=[
         dict(name="dnsserver", dir="internal/dnsserver", src="C08/dnsserver", runs=[
-            dict(name="udpgrid", run="^TestVerifC08UDPGrid$", quick=0, thorough=0, env=_DEV),
+            dict(name="udpgrid", run="^TestVerifC08UDPGrid$", quick=0, thorough=0),
             dict(name="transports", run="^TestVerifC08Transports$", quick=40000, thorough=2400000,
-                 shards_quick=2, shards_thorough=8, env=_DEV),
+                 shards_quick=2, shards_thorough=8, env={"GODEBUG": "randseednop=0"}),
         ]),
     ],
 )
